@@ -6,7 +6,7 @@ CONSTANTS
   MaxDepth = 16
   MaxClock = 1
   Limit <- Limit_Sim
-  Ops = {"create", "createfault", "attr", "link", "delete"}
+  Ops = {"create", "mtagauto", "createfault", "attr", "link", "delete"}
   Faults = {"DuplicateName", "BadName", "NoneType", "WrongKind", "ForeignBlock", "NotMember", "Required", "NotFound"}
   Script <- Script_Links
 VIEW View
